@@ -16,7 +16,6 @@ import (
 	"github.com/ipfs/go-cid"
 	carv2 "github.com/ipld/go-car/v2"
 	"github.com/ipld/go-car/v2/index"
-	mh "github.com/multiformats/go-multihash"
 	"github.com/multiformats/go-multicodec"
 	"github.com/multiformats/go-varint"
 )
@@ -585,9 +584,7 @@ func runWrapManyImpl(c *Ctx, o xOpts, n int, seed uint64, idEvery int) Val {
 						resolved++
 					}
 				}
-				if it, ok := idx.(index.IterableIndex); ok {
-					it.ForEach(func(_ mh.Multihash, _ uint64) error { records++; return nil })
-				}
+				records = c10CountRecords(out[51+len(payload):])
 			}
 		}
 		return VL{VT("nil"), VN(uint64(n)), VN(want), VN(resolved), VN(records), vbool(verbatim)}
@@ -599,4 +596,55 @@ func init() {
 		l := in.(VL)
 		return runWrapManyImpl(c, xoptsOfVal(l[0]), int(l[1].(VN)), uint64(l[2].(VN)), int(l[3].(VN)))
 	})
+}
+
+// c10CountRecords counts the records of a serialized index (both sorted codecs) from its bytes.
+func c10CountRecords(p []byte) uint64 {
+	codec, n, err := varint.FromUvarint(p)
+	if err != nil {
+		return 0
+	}
+	p = p[n:]
+	var total uint64
+	mwi := func(p []byte) ([]byte, bool) {
+		if len(p) < 4 {
+			return nil, false
+		}
+		cnt := int(binary.LittleEndian.Uint32(p))
+		p = p[4:]
+		for i := 0; i < cnt; i++ {
+			if len(p) < 12 {
+				return nil, false
+			}
+			w := uint64(binary.LittleEndian.Uint32(p))
+			l := binary.LittleEndian.Uint64(p[4:])
+			p = p[12:]
+			if w < 8 || l > uint64(len(p)) {
+				return nil, false
+			}
+			total += l / w
+			p = p[l:]
+		}
+		return p, true
+	}
+	switch multicodec.Code(codec) {
+	case multicodec.CarIndexSorted:
+		mwi(p)
+	case multicodec.CarMultihashIndexSorted:
+		if len(p) < 4 {
+			return 0
+		}
+		cnt := int(binary.LittleEndian.Uint32(p))
+		p = p[4:]
+		for i := 0; i < cnt; i++ {
+			if len(p) < 8 {
+				return total
+			}
+			var ok bool
+			if p, ok = mwi(p[8:]); !ok {
+				return total
+			}
+		}
+	}
+	return total
 }
